@@ -586,35 +586,57 @@ def rule_repr_attrs(ctx, rep, facts):
     ga = model.func('ast_renderer.get_ast')
     rep.instance(rule)
     tokc = model.cls('block_token.Table')
-    kid1, kid2, hdr = Obj(tokc, {'_n': 1}), Obj(tokc, {'_n': 2}), Obj(tokc, {'_n': 3})
-    rec = []
-    it = Interp(model)
+    rawc = model.cls('span_token.RawText')
+
+    def leaf_(text):
+        return Obj(rawc, {'content': text})
+
+    def leaf_node(text):
+        return {'type': 'RawText', 'content': text}
+    # whole small trees, compared with the tree the documentation describes - whether get_ast recurses or walks with a stack
+    kid1, kid2, hdr = leaf_('a'), leaf_('b'), leaf_('h')
+    it = Interp(model, loop_bound=16, while_bound=16)
     it.reset_run(Oracle())
-    it.on_recursion = lambda interp, fi, args, kwargs: rec.append(args[0]) or {'rec': id(args[0])}
     o = Obj(tokc, {'_children': [kid1, kid2], 'header': hdr, 'column_align': [None, 1], 'line_number': 5, 'content': 'zz',
                    'footnotes': {'k': ('d', 't')}, 'secret': 'not-exported'})
-    node = it.call_function(ga, [o], {})
+    try:
+        node = it.call_function(ga, [o], {})
+    except Raised as e:
+        node = 'raises %s' % e.exc.kind
     ok = (isinstance(node, dict) and node.get('type') == 'Table' and list(node)[0] == 'type'
           and node.get('column_align') == [None, 1] and node.get('line_number') == 5 and node.get('content') == 'zz'
           and node.get('footnotes') == {'k': ('d', 't')} and 'secret' not in node
-          and node.get('children') == [{'rec': id(kid1)}, {'rec': id(kid2)}] and node.get('header') == {'rec': id(hdr)}
-          and rec == [hdr, kid1, kid2])
+          and node.get('children') == [leaf_node('a'), leaf_node('b')] and node.get('header') == leaf_node('h'))
     rep.obligation(rule, ok, {'get_ast(token)': sorted(node) if isinstance(node, dict) else repr(node)})
     if not ok:
         rep.find(rule, ga.short, 'shape', 'get_ast does not produce {type, content/footnotes, repr attributes, header, children} '
-                 'with recursion over exactly header and children: %r' % (node,), loc(model.unit_of(ga), ga.node))
+                 'with the trees of exactly header and children below it: %r' % (node,), loc(model.unit_of(ga), ga.node))
     # a container that happens to be empty still has its (empty) children list and its header in the tree
     for empty in ([], ()):
-        hdr2 = Obj(tokc, {'_n': 4})
-        o2 = Obj(tokc, {'_children': empty, 'header': hdr2, 'column_align': [None], 'line_number': 1})
-        del rec[:]
-        node = it.call_function(ga, [o2], {})
-        ok = isinstance(node, dict) and node.get('children') == [] and node.get('header') == {'rec': id(hdr2)} and rec == [hdr2]
+        o2 = Obj(tokc, {'_children': empty, 'header': leaf_('h2'), 'column_align': [None], 'line_number': 1})
+        try:
+            node = it.call_function(ga, [o2], {})
+        except Raised as e:
+            node = 'raises %s' % e.exc.kind
+        ok = isinstance(node, dict) and node.get('children') == [] and node.get('header') == leaf_node('h2')
         rep.obligation(rule, ok, {'get_ast(empty container)': sorted(node) if isinstance(node, dict) else repr(node)})
         if not ok:
             rep.find(rule, ga.short, 'empty-container', 'get_ast of a token whose children list is empty (%r) yields %r: the empty '
                      'children list or the header row is missing from the tree' % (empty, node), loc(model.unit_of(ga), ga.node),
                      witness='| A | B |\n| --- | --- |')
+    # two levels below the root: every level is exported
+    inner = Obj(tokc, {'_children': [leaf_('x')], 'header': leaf_('ih'), 'column_align': [None], 'line_number': 2})
+    o3 = Obj(tokc, {'_children': [inner, leaf_('y')], 'header': leaf_('oh'), 'column_align': [None], 'line_number': 1})
+    try:
+        node = it.call_function(ga, [o3], {})
+    except Raised as e:
+        node = 'raises %s' % e.exc.kind
+    kids = node.get('children') if isinstance(node, dict) else None
+    ok = isinstance(kids, list) and len(kids) == 2 and isinstance(kids[0], dict) and kids[0].get('children') == [leaf_node('x')] \
+        and kids[0].get('header') == leaf_node('ih') and kids[1] == leaf_node('y')
+    rep.obligation(rule, ok, {'get_ast(nested)': repr(node)[:120]})
+    if not ok:
+        rep.find(rule, ga.short, 'nested', 'get_ast of a token two levels above its leaves yields %r' % (node,), loc(model.unit_of(ga), ga.node))
     leaf = Obj(model.cls('span_token.RawText'), {'content': 'x'})
     node = it.call_function(ga, [leaf], {})
     ok = node == {'type': 'RawText', 'content': 'x'}
